@@ -546,13 +546,11 @@ func x4RunCase(dir string, c x4Case) (o x4Obs) {
 			o.ZombieMs = x4Ms(x4Mono() - t0)
 		}
 	}
-	var ee *exec.ExitError
-	switch {
-	case r1.err == nil:
-		o.St = "exit0"
-	case errors.As(r1.err, &ee):
-		o.St = x4Status(ee.ProcessState)
-	case o.Err == "done":
+	// the wait status, taken from the command itself (cmd.Wait has returned whenever Close hands out its result)
+	switch o.Err {
+	case "nil", "exit":
+		o.St = x4Status(cmd.ProcessState)
+	case "done":
 		time.Sleep(50 * time.Millisecond) // cmd.Wait sets ProcessState right after the process was marked done
 		o.St = x4Status(cmd.ProcessState)
 	}
@@ -632,11 +630,13 @@ func TestVerif_X04(t *testing.T) {
 		cases = append(cases, c)
 	}
 	f.Close()
-	dir, err := os.MkdirTemp("", "x04-logs-")
-	if err != nil {
-		t.Fatal(err)
+	dir := os.Getenv("VERIF_X04_DIR") // the runner's scratch directory (removed by the runner even if this binary is killed)
+	if dir == "" {
+		if dir, err = os.MkdirTemp("", "x04-logs-"); err != nil {
+			t.Fatal(err)
+		}
+		defer os.RemoveAll(dir)
 	}
-	defer os.RemoveAll(dir)
 	w, err := os.Create(out)
 	if err != nil {
 		t.Fatal(err)
